@@ -161,3 +161,55 @@ class ConcreteCtx:
 
     def int_field(self, text):
         return int(text)
+
+
+class EnumCtx(ConcreteCtx):
+    """exhaustive enumeration of the structural choices of a purely concrete shard (no symbolic inputs), on the real code with real numpy"""
+
+    def __init__(self, prefix):
+        super().__init__(dict(choices=[], values={}))
+        self.prefix = list(prefix)
+        self.decisions = []
+        self.pending = []
+        self.exact = True
+
+    def choose(self, name, options):
+        options = list(options)
+        i = len(self.decisions)
+        if i < len(self.prefix):
+            d = self.prefix[i]
+        else:
+            d = 0
+            for alt in range(len(options) - 1, 0, -1):
+                self.pending.append(self.decisions + [alt])
+        self.decisions.append(d)
+        self.choices.append([name, d])
+        return options[d]
+
+    def _nosym(self, *a, **k):
+        raise ReplayMismatch("a concrete shard asked for a symbolic input")
+
+    real = int = bool = absstr = chars = _nosym
+
+
+def enumerate_shard(H, params):
+    """-> dict(paths, failed=[{label, info, choices}], reached=[...])"""
+    work = [[]]
+    paths, failed, reached = 0, [], set()
+    while work:
+        prefix = work.pop()
+        ctx = EnumCtx(prefix)
+        try:
+            res = H.scenario(ctx, params)
+            outcome = ("ok", res)
+        except ReplayMismatch:
+            raise
+        except Exception as ex:  # noqa: BLE001
+            outcome = ("exc", ex)
+        H.judge(ctx, params, outcome)
+        work.extend(ctx.pending)
+        paths += 1
+        reached |= ctx.reached
+        for f in ctx.failed:
+            failed.append(dict(label=f["label"], info=f.get("info"), choices=[list(c) for c in ctx.choices]))
+    return dict(paths=paths, failed=failed, reached=sorted(reached))
